@@ -45,7 +45,8 @@ def inert_queries(tier):
     return qs
 
 ERRCASES = {1: 'null key', 2: 'key too short', 3: 'key too long', 4: 'null tweaked key / Mantis rounds 4', 5: 'tweaked key too long / Mantis tweak of 7 bytes', 6: 'tweak length 0', 7: 'tweak too long',
-            8: 'counter too long', 9: 'null output pointer', 10: 'null input pointer', 11: 'counter length 0xFFFFFFFF'}
+            8: 'counter too long', 9: 'null output pointer', 10: 'null input pointer', 11: 'counter length 0xFFFFFFFF',
+            12: 'null tweak with length 0', 13: 'null tweak with length block+1'}
 
 def err_queries(tier):
     qs = []
